@@ -56,12 +56,12 @@ FinalOK(inst, sol, fin) == TRUE
 \* current_total_prize, step counter i, done
 Init0(inst) == [visited |-> {}, cur |-> 0, tl |-> 0, prize |-> 0, i |-> 0, done |-> FALSE]
 
-\* quirk EpsMargin (op/env.py:_reset): max_length[j] = L - dist(depot, j) - 1e-6 "for numeric
-\* stability"; get_action_mask hides j when tour_length + dist(cur, j) > max_length[j].  On an
-\* exact (dyadic) embedding the 1e-6 turns "exceeds L" into "reaches L": a node whose visit
-\* leaves a tour of length EXACTLY L is hidden.
+\* op/env.py:_reset stores max_length[j] = L - dist(depot, j) + 1e-6 (margin on the permissive side since
+\* the fix "OP: tours of length exactly the budget stay reachable"; before, the margin was subtracted and
+\* an exact-fit tour was hidden); get_action_mask hides j when tour_length + dist(cur, j) > max_length[j].
+\* On an exact (dyadic) embedding the comparison is therefore "exceeds L".
 ExceedsLength(inst, s, j) ==
-  s.tl + Dist(inst.D, s.cur, j) + Dist(inst.D, j, 0) >= inst.L
+  s.tl + Dist(inst.D, s.cur, j) + Dist(inst.D, j, 0) > inst.L
 
 \* mask = visited | visited[0] | exceeds_length ; afterwards action_mask[..., 0] = 1
 Hidden(inst, s, j) == j \in s.visited \/ 0 \in s.visited \/ ExceedsLength(inst, s, j)
